@@ -10,6 +10,7 @@ Blank == [kind |-> "", blk |-> 0, others |-> "", odd |-> "", n |-> 0, val |-> ""
 Cases == {[Blank EXCEPT !.kind = "dlog", !.blk = b, !.others = o, !.odd = d, !.rep = r] : b \in 0 .. 3, o \in {"zero", "rnd"}, d \in {"one", "rnd"}, r \in 1 .. Reps}
          \cup {[Blank EXCEPT !.kind = "special", !.val = s] : s \in {"0", "1", "2", "4", "p-1", "p-2", "5", "h", "g", "g2"}}
          \cup {[Blank EXCEPT !.kind = k, !.n = (IF Tier = "quick" THEN 150 ELSE 10000), !.rep = r] : k \in {"random", "square", "point"}, r \in 1 .. Reps}
+         \cup {[Blank EXCEPT !.kind = "yside", !.n = (IF Tier = "quick" THEN 40 ELSE 2000), !.rep = r] : r \in 1 .. Reps}
          \cup {[Blank EXCEPT !.kind = "tables"]}
 VARIABLE done
 Init == done = FALSE
